@@ -146,8 +146,54 @@ class Judge:
         self.facts: Set[Tuple[int, int]] = set()   # (ov uid, walkers uid)
         self.gfacts: Set[Tuple[int, int]] = set()  # (greens uid, walkers uid)
         self.trace: List[str] = []
+        self.scan_bodies: Dict[int, Tuple[T, T, T]] = {}   # scan call uid -> (scan call, carry term, body result)
+        self._slot_busy: Set[Tuple[int, int]] = set()
 
     # ----------------------------------------------------------- helpers
+    @staticmethod
+    def _scan_slot(x: T):
+        """x == scan(...)[0][k] for a literal k -> (scan call, k)"""
+        x = strip_wrappers(x)
+        if x.op == "getitem" and x.args[1].op == "const" and isinstance(x.args[1].args[0], int) and \
+                not isinstance(x.args[1].args[0], bool):
+            b = x.args[0]
+            if b.op == "getitem" and is_const(b.args[1], 0) and b.args[0].op == "call" and match_scan(b.args[0]) is not None:
+                return b.args[0], x.args[1].args[0]
+        return None
+
+    def _slot_induction(self, D: T, W: T, depth: int) -> bool:
+        """R6: D and the two components of W are slots k, i0, i1 of the final carry of one scan whose carry is a plain
+        tuple / record (not the walker-state dict): the relation holds after the scan when it holds for the initial
+        carry and the body re-establishes it from the assumption on the incoming carry."""
+        sd = self._scan_slot(D)
+        if sd is None or sd[0].uid not in self.scan_bodies:
+            return False
+        t, k = sd
+        comps = [self._scan_slot(getitem(W, const(i))) for i in (0, 1)]
+        if any(c is None or c[0] is not t for c in comps):
+            return False
+        i0, i1 = comps[0][1], comps[1][1]
+        key_ = (t.uid, k)
+        if key_ in self._slot_busy:
+            return False
+        self._slot_busy.add(key_)
+        try:
+            _, C, body_res = self.scan_bodies[t.uid]
+            init = match_scan(t)[1]
+            slots = lambda X: (getitem(X, const(k)), mk("list", getitem(X, const(i0)), getitem(X, const(i1))))
+            d_i, w_i = slots(init)
+            if not self.coherent(d_i, w_i, depth + 1):
+                return False
+            snap = self.snapshot()
+            try:
+                self._ft.append(slots(C))
+                d_e, w_e = slots(getitem(body_res, const(0)))
+                return self.coherent(d_e, w_e, depth + 1)
+            finally:
+                self.restore(snap)
+        finally:
+            self._slot_busy.discard(key_)
+
     @staticmethod
     def W_eq(a: T, b: T) -> bool:
         if a is b:
@@ -316,6 +362,9 @@ class Judge:
                 w_prev, g_prev = r
                 if self.coherent(dprev, w_prev, depth + 1) and self.gcoherent(g_prev, w_prev, depth + 1):
                     return True
+        # R6 slots of a scan over a plain tuple / record carry
+        if self._slot_induction(D, W, depth):
+            return True
         return False
 
     def fcoherent(self, D: T, W: T, N: T) -> bool:
@@ -550,6 +599,7 @@ def analyse_run(run: TSRun, keys=("overlaps", "greens"), entry_coherent: bool = 
                 sc = match_scan(t)
                 init = sc[1]
                 if not is_pd(init):
+                    j.scan_bodies[t.uid] = (t, mk("scan_carry", init, t.uid), ev[jx].data[1])
                     run_block(i + 1, jx, report)
                     i = jx + 1
                     continue
